@@ -262,14 +262,20 @@ pub fn run_batched(lines: &[Line], batches: &[usize], gap: u64, case: u64) -> (O
     let msgs = rig.drain();
     let mut port_msgs = vec![];
     let mut other = vec![];
+    // only the port announcements are compared across partitions, without repetitions of the value
+    // announced last for the port; other message kinds are not pinned by any property
+    let mut last_announced: HashMap<String, String> = HashMap::new();
     for m in msgs {
         let f: Vec<&str> = m.split(':').collect();
         if f[0] == "ioport" && f.len() == 4 {
-            port_msgs.push((f[1].to_string(), f[2].to_string()));
-        } else if !m.starts_with("sync:") {
-            other.push(m);
+            let prev = last_announced.get(f[1]).cloned().unwrap_or_else(|| "0".to_string());
+            if prev != f[2] {
+                last_announced.insert(f[1].to_string(), f[2].to_string());
+                port_msgs.push((f[1].to_string(), f[2].to_string()));
+            }
         }
     }
+    let _ = &mut other;
     let s = st.borrow();
     let mut mem: Vec<(u32, u8)> = s.model.mem.keys().map(|a| (*a, real_peek(&rig.cpu, *a).unwrap_or(0))).collect();
     mem.sort_unstable();
